@@ -306,6 +306,10 @@ func runCtrl(ctx *Ctx, in ctrlIn) ([]ctrlObs, string) {
 		c.VerifSetPwmMap(pm)
 	}
 	configuration.CurrentConfig.RpmRollingWindowSize = in.NRpm
+	// a daemon controls several fans: ANOTHER controller with a different sparse map is set up after the one under
+	// test (and used between its cycles further down); controllers share nothing, so this must not matter
+	other := controller.VerifNewController(nil, &RecFan{Id: "other", MaxP: 255}, &ctrlStubCurve{}, control_loop.NewDirectControlLoop(nil), 100*time.Millisecond)
+	other.VerifSetPwmMap(map[int]int{0: 0, 7: 9, 64: 64, 100: 128, 201: 130, 255: 255})
 
 	// hooks
 	util.VerifVirtualClock = true
@@ -434,6 +438,7 @@ func runCtrl(ctx *Ctx, in ctrlIn) ([]ctrlObs, string) {
 				curve.v, curve.err = 0, errors.New("curve evaluation failed")
 			}
 			util.VerifAdvance(time.Duration(ev.Dt))
+			_ = catch(func() { _ = other.VerifSetPwm(int(ev.Dt/1e6) % 256) })
 			if sibling != nil { // the other fan's control loop runs its own cycle (an unrelated target) in between
 				t := 255
 				if ev.Curve != nil {
